@@ -116,6 +116,10 @@ func (eng) Cases(seed uint64, tier string) []core.CaseDesc {
 	for k := 0; k < 8; k++ {
 		cs = append(cs, mk(fmt.Sprintf("errpipe/%02d", k), "errpipe", uint64(k), pipeP{}))
 	}
+	// BindConnected with some of its four (optional) target states left out
+	for k := 1; k < 15; k++ {
+		cs = append(cs, mk(fmt.Sprintf("optional/%02d", k), "optional", uint64(k), pipeP{}))
+	}
 	for _, b := range []string{"bind", "flat"} {
 		for r := 0; r < netReps; r++ {
 			i++
@@ -492,8 +496,81 @@ func (e eng) Run(c core.CaseDesc, tier string) *core.CaseResult {
 		runStall(res, c, p)
 	case "errpipe":
 		runErrPipe(res, c)
+	case "optional":
+		runOptional(res, c)
 	}
 	return res
+}
+
+// runOptional: BindConnected documents each of its four target states as
+// optional. The bits of the case number say which ones are piped; the source
+// walks through all four states. The source must not be disturbed by the
+// states that are not piped and the target has to follow the ones that are.
+func runOptional(res *core.CaseResult, c core.CaseDesc) {
+	cst := ss.ConnectedStates
+	srcStates := []string{cst.Disconnected, cst.Connecting, cst.Connected, cst.Disconnecting}
+	// the connected schema without its Auto flag (an Auto state is retried
+	// after every error, which would turn one fault into a storm)
+	sc := am.Schema{}
+	for n, st := range ss.ConnectedSchema {
+		st.Auto = false
+		sc[n] = st
+	}
+	sc["Start"] = am.State{}
+	src := am.New(context.Background(), sc, &am.Opts{Id: "c18os", DontLogId: true, DontLogStackTrace: true})
+	tgtNames := []string{"TDisconnected", "TConnecting", "TConnected", "TDisconnecting"}
+	tsc := am.Schema{}
+	for _, n := range tgtNames {
+		tsc[n] = am.State{}
+	}
+	tgt := am.New(context.Background(), tsc, &am.Opts{Id: "c18ot", DontLogId: true, DontLogStackTrace: true})
+	defer src.Dispose()
+	defer tgt.Dispose()
+	arg := make([]string, 4)
+	for b := 0; b < 4; b++ {
+		if c.Seed&(1<<b) != 0 {
+			arg[b] = tgtNames[b]
+		}
+	}
+	if _, err := ampipe.BindConnected(src, tgt, arg[0], arg[1], arg[2], arg[3]); err != nil {
+		res.Inconclusive = "BindConnected: " + err.Error()
+		return
+	}
+	ctx := map[string]any{"piped": arg}
+	src.Add1("Start", nil)
+	for step, st := range []string{cst.Disconnected, cst.Connecting, cst.Connected, cst.Disconnecting, cst.Disconnected} {
+		done := make(chan am.Result, 1)
+		go func() { done <- src.Add1(st, nil) }()
+		res.Evals++
+		select {
+		case <-done:
+		case <-time.After(10 * time.Second):
+			res.Violate("C18/source-blocked/bindconnected-optional", fmt.Sprintf("Add1(%s) on the source did not return within 10s", st), map[string]any{"ctx": ctx, "dump": core.StackAll()})
+			return
+		}
+		if src.IsErr() {
+			res.Violate("C18/source-disturbed/bindconnected-optional", fmt.Sprintf("step %d: the source is in Exception after Add1(%s): %v (a state that is not piped changed)", step, st, src.Err()), ctx)
+			return
+		}
+		// the target follows the piped ones
+		ok := false
+		for i := 0; i < 3000 && !ok; i++ {
+			ok = true
+			for b, sn := range srcStates {
+				if arg[b] != "" && src.Is1(sn) != tgt.Is1(arg[b]) {
+					ok = false
+				}
+			}
+			if !ok {
+				time.Sleep(time.Millisecond)
+			}
+		}
+		if !ok {
+			res.Violate("C18/optional/target-differs", fmt.Sprintf("step %d: source %s, target %s", step, src.String(), tgt.String()), ctx)
+			return
+		}
+	}
+	res.Key("optional", c.Seed)
 }
 
 // runErrPipe: a (flat or plain) pipe from the source's ErrNet into the
